@@ -317,3 +317,54 @@ h!(c03_api_tick_first, 12, {
     kani::cover!(r.is_err(), "rejected time");
     core::mem::forget((m, r));
 });
+
+// ---------------------------------------------------------------------------
+// (vi) finalize hands each track's OWN remembered last delta to its final sample
+//      (both layouts; the moov builder is replaced by the recording stand-in)
+// ---------------------------------------------------------------------------
+fn fallback_body(fast_start: bool) {
+    use crate::fin::*;
+    use muxide::verif_hooks::mp4::verif as m;
+    let vlast: Option<u32> = kani::any();
+    let alast: Option<u32> = kani::any();
+    let (vp, ap): (u64, u64) = (kani::any(), kani::any());
+    kani::assume(vp < (1 << 31) && ap < (1 << 31));
+    let c = carrier(8);
+    // two samples per track: the first has its duration, the final one has none yet
+    let video = [m::mk_sample(0, 0, payload(vtag(0), 2), true, Some(700)), m::mk_sample(vp, 700, payload(vtag(1), 3), false, None)];
+    let audio = [m::mk_sample(0, 0, payload(atag(0), 1), false, Some(900)), m::mk_sample(ap, ap, payload(atag(1), 2), false, None)];
+    let mut w = m::writer_with_state::<RecSink, 2, 2>(RecSink::new(), VideoCodec::Vp9, video, Some(audio_track()), audio,
+        Some(700), vlast, Some(ap), alast, None, false, 0);
+    let r = w.finalize(&c.track, None, fast_start);
+    assert!(r.is_ok());
+    if replay_mode() {
+        let p = crate::native_mp4::parse(&m::sink(&w).log).expect("well-formed file");
+        assert!(p.tracks[0].durations() == vec![700, vlast.unwrap_or(1)], "native replay: final video sample duration is not the video track's last delta");
+        assert!(p.tracks[1].durations() == vec![900, alast.unwrap_or(1)], "native replay: final audio sample duration is not the audio track's last delta");
+        core::mem::forget((w, r));
+        return;
+    }
+    let mc = final_call(&c);
+    assert!(mc.video.n == 2 && mc.audio.n == 2 && mc.audio_present);
+    assert!(mc.video.durations[0] == 700 && mc.audio.durations[0] == 900, "stored durations are passed through");
+    assert!(mc.video.durations[1] == vlast.unwrap_or(1), "final video sample gets the video track's last delta (or 1)");
+    assert!(mc.audio.durations[1] == alast.unwrap_or(1), "final audio sample gets the audio track's last delta (or 1)");
+    kani::cover!(vlast.is_some() && alast.is_some() && vlast != alast, "tracks with different last deltas");
+    core::mem::forget((w, r));
+}
+//@ prop=C03,C08 tier=quick cost=400 fns="Mp4Writer::finalize,finalize_standard,SampleTables::from_samples" bound="standard layout, 2 video + 2 audio samples, any remembered last deltas (Option<u32> each), any final pts < 2^31" unwind=7 stubs="build_moov_box(recording stand-in)" timeout=1400 mem=20
+#[kani::proof]
+#[kani::unwind(7)]
+#[kani::stub(muxide::invariant_ppt::__assert_invariant_impl, crate::stubs::assert_invariant_stub)]
+#[kani::stub(muxide::muxer::mp4::build_moov_box, muxide::verif_hooks::mp4::verif::moov_recording_stub)]
+pub fn c03_finalize_fallback_std() {
+    fallback_body(false);
+}
+//@ prop=C03,C08 tier=quick cost=500 fns="Mp4Writer::finalize,finalize_fast_start,SampleTables::from_samples" bound="fast start, 2 video + 2 audio samples, any remembered last deltas, any final pts < 2^31" unwind=7 stubs="build_moov_box(recording stand-in)" timeout=1400 mem=20
+#[kani::proof]
+#[kani::unwind(7)]
+#[kani::stub(muxide::invariant_ppt::__assert_invariant_impl, crate::stubs::assert_invariant_stub)]
+#[kani::stub(muxide::muxer::mp4::build_moov_box, muxide::verif_hooks::mp4::verif::moov_recording_stub)]
+pub fn c03_finalize_fallback_fast() {
+    fallback_body(true);
+}
